@@ -3,6 +3,9 @@ import MidnightZK.Model.C19.Tree
 import MidnightZK.Model.C19.Dfa
 import MidnightZK.Proofs.C19.Lang
 import MidnightZK.Proofs.C19.Bisim
+import MidnightZK.Proofs.C19.Serial
+import MidnightZK.Proofs.C19.Circuit
+import MidnightZK.Proofs.C19.Base64
 /-!
 # C19 — regex compilation, automaton parsing and base64 decoding are exact
 
@@ -159,5 +162,112 @@ theorem dfaBisim_sound_bytes (fuel : Nat) (A B : Dfa) (h : dfaBisim fuel A B = t
     intro a ha
     exact hb _ (List.of_mem_zip ha).1)
   rwa [List.map_fst_zip (by omega), List.map_snd_zip (by omega)] at this
+
+/-! ## Serialization -/
+
+/-- `Automaton::deserialize ∘ Automaton::serialize = id`, for every automaton whose numbers fit
+their Rust types and every continuation of the buffer: the automaton is recovered and exactly
+the serialized bytes are consumed. -/
+theorem serialize_roundtrip (A : AutData) (h : A.wf) (rest : List Nat) :
+    deserialize (serialize A ++ rest) = some (A, rest) :=
+  deserialize_serialize A h rest
+
+/-- Non-vacuity: a two-state automaton with one transition. -/
+example : deserialize (serialize ⟨2, 0, [1], [((0, 97), (1, 5))]⟩) =
+    some (⟨2, 0, [1], [((0, 97), (1, 5))]⟩, []) := by decide
+
+/-- A buffer shorter than one `usize` is rejected (`ensure_buf_len!`), never mis-read. -/
+theorem deserialize_short (buf : List Nat) (h : buf.length < 8) : deserialize buf = none := by
+  simp [deserialize, deUsize_short buf h]
+
+/-! ## The in-circuit parser -/
+
+/-- **Rows of `AutomatonChip::parse` ⇔ run of the automaton.** For every automaton, every shift
+`off ≥ 1` of its states, every input over bytes and every output column: there is a choice of
+the intermediate states (the prover's witness) that puts all rows of the region — one per
+byte, plus the final sentinel row with letter 256 — into the lookup table **iff** the automaton
+run on the input ends in a final state and emits exactly these outputs. Soundness (⇒) holds for
+every prover-chosen state column; completeness (⇐) is the honest witness. -/
+theorem parse_rows_iff_run (A : Dfa) (off : Nat) (hoff : 0 < off) (bytes outs : List Nat)
+    (hb : ∀ b ∈ bytes, b < 256) :
+    rowsOk A off (A.init + off) bytes outs ↔ A.accepts bytes outs = true := by
+  rw [rowsOk_iff_run A off hoff bytes outs A.init hb]
+  simp only [Dfa.accepts]
+  constructor
+  · rintro ⟨q, hq, hf⟩; simp [hq, hf]
+  · intro h
+    cases hr : A.run A.init bytes with
+    | none => simp [hr] at h
+    | some p =>
+      obtain ⟨q, ms⟩ := p
+      simp only [hr, Bool.and_eq_true, decide_eq_true_eq] at h
+      exact ⟨q, by rw [h.2], h.1⟩
+
+/-- The honest prover's verdict (`parseModel`, what the harness observes under `MockProver`) is
+the acceptance of the automaton. -/
+theorem parseModel_spec (A : Dfa) (bytes outs : List Nat) :
+    parseModel A bytes = some outs ↔ A.accepts bytes outs = true := by
+  simp only [parseModel, Dfa.accepts]
+  cases A.run A.init bytes with
+  | none => simp
+  | some p =>
+    obtain ⟨q, ms⟩ := p
+    by_cases hf : A.isFinal q = true <;> simp [hf]
+
+/-- End to end: a validated automaton put into the circuit makes the circuit satisfiable exactly
+on the marked words of the expression's language. -/
+theorem circuit_accepts_iff_lang (fuel : Nat) (A : Dfa) (r : Rx) (h : checkEquiv fuel A r = true)
+    (off : Nat) (hoff : 0 < off) (w : List Letter) (hw : ∀ a ∈ w, a.1 < 256) :
+    rowsOk A off (A.init + off) (w.map (·.1)) (w.map (·.2)) ↔ L r w := by
+  rw [parse_rows_iff_run A off hoff _ _ (by
+    intro b hb
+    obtain ⟨a, ha, rfl⟩ := List.mem_map.mp hb
+    exact hw a ha)]
+  exact checkEquiv_sound fuel A r h w hw
+
+/-! ## Base64 -/
+
+/-- **`base64_decode_spec`, well-formed inputs.** For every byte string, the in-circuit decoder
+(padded mode on the RFC 4648 encoding with `=`, unpadded mode on the encoding without) is
+satisfiable and outputs the bytes followed by the zero fill to a multiple of 3. -/
+theorem base64_decode_spec (pad : Bool) (bytes : List Nat) (h : ∀ b ∈ bytes, b < 256) :
+    B64.decode pad (B64.encode pad bytes) = some (bytes ++ B64.zeroFill bytes.length) :=
+  B64.decode_encode pad bytes h
+
+/-- Non-vacuity: "AB" encodes to "QUI=" and decodes back (with one zero). -/
+example : B64.decode true (B64.encode true [65, 66]) = some [65, 66, 0] := by decide
+
+/-- **Malformed inputs.** A byte that is neither in the base64 alphabet nor `=` makes the
+circuit unsatisfiable at every position, in both modes. -/
+theorem base64_reject_char (pad : Bool) (input : List Nat)
+    (h : ∃ c ∈ input, B64.val c = none ∧ c ≠ B64.b64Pad) : B64.decode pad input = none :=
+  B64.decode_reject_char pad input h
+
+/-- `=` in a chunk that is not the last one, and `=` followed by a non-`=` in the last chunk,
+are unsatisfiable. -/
+theorem base64_reject_padding :
+    (∀ (pad : Bool) (c0 c1 c2 c3 c4 : Nat) (rest : List Nat),
+      (c0 = B64.b64Pad ∨ c1 = B64.b64Pad ∨ c2 = B64.b64Pad ∨ c3 = B64.b64Pad) →
+      B64.decode pad (c0 :: c1 :: c2 :: c3 :: c4 :: rest) = none) ∧
+    (∀ c0 c1 c3 : Nat, c3 ≠ B64.b64Pad → B64.decode true [c0, c1, B64.b64Pad, c3] = none) :=
+  ⟨B64.decode_reject_early_pad, fun c0 c1 c3 h => by
+    simp [B64.decode, B64.lastPadded_reject c0 c1 c3 h]⟩
+
+/-- The output always has 3 bytes per chunk of 4 characters ("3/4 of the padded length"). -/
+theorem base64_output_length (pad : Bool) (input out : List Nat)
+    (h : B64.decode pad input = some out) : out.length = (input.length + 3) / 4 * 3 :=
+  B64.decode_length pad input out h
+
+/-- The property's clause "unsatisfiable on every malformed input" does NOT hold at full
+strength for the code as it is: the circuit is lenient about non-zero trailing bits (documented
+in `base64_chip.rs`: "the decoding instructions do not enforce the validity of the base64
+input"). Witness: `"QR=="` is satisfiable and leaks the stray bits into the output. -/
+theorem base64_noncanonical_accepted :
+    B64.decode true [81, 82, 61, 61] = some [65, 16, 0] := by decide
+
+/-- Likewise the url-safe decoder accepts the two characters `+` and `/` of the standard
+alphabet (`url_to_standard` only rewrites `-` and `_`). -/
+theorem base64url_accepts_std_chars :
+    B64.decodeUrl true [43, 47, 43, 47] = some [251, 255, 191] := by decide
 
 end MidnightZK.C19
